@@ -341,6 +341,122 @@ def deleted_fixed():
     return out
 
 
+# ------------------------------------------------------------------ the clean filter defined more than once
+CFG_LEVELS = ['local'] * 5 + ['global'] * 3 + ['system', 'include-local', 'include-local', 'include-global', 'env']
+
+
+def cfg_query(r, ops, kinds):
+    """a query over the history `ops` (as gen_deleted_scenario builds them): ref pair of one of `kinds`, directory, filters, API or CLI"""
+    head, index, disk = simulate(ops)
+    ever = sorted({o[1] for o in ops if o[0] == 'write'} | {o[2] for o in ops if o[0] == 'mv'})
+    dirs = sorted({'/'.join(p.split('/')[:k]) for p in disk for k in range(1, len(p.split('/')))})
+    ncommits = sum(1 for o in ops if o[0] == 'commit')
+    kind = r.choice(kinds)
+    older = ['main', 'v1'] + ['HEAD~%d' % k for k in range(1, ncommits)]
+    ra = 'HEAD' if r.random() < 0.7 else r.choice(older)
+    if kind == 'cw': rb = 'WORKTREE'
+    elif kind == 'iw': ra, rb = 'INDEX', 'WORKTREE'
+    elif kind == 'ci': rb = 'INDEX'
+    else: ra, rb = r.choice(older), 'HEAD'
+    cwd = r.choice(dirs) if dirs and r.random() < 0.6 else ''
+    paths = None
+    if r.random() < 0.35:
+        under = [p[len(cwd) + 1:] if cwd else p for p in ever if (not cwd or p.startswith(cwd + '/'))]
+        cands = under + ['.'] + sorted({u.split('/')[0] for u in under if '/' in u})
+        paths = r.sample(cands, min(len(cands), r.choice([1, 1, 2])))
+    q = {'mode': 'api', 'ref_a': ra, 'ref_b': rb, 'cwd': cwd, 'paths': paths}
+    if kind in ('cc', 'cw') and r.random() < 0.3:
+        pos = []
+        explicit_a = ra != 'HEAD' or kind == 'cc' or r.random() < 0.5
+        if explicit_a: pos.append(ra)
+        if kind == 'cc': pos.append(rb)
+        pl = list(paths or [])
+        if not explicit_a and len(pl) == 2: pl = pl[:1]              # two non-refs would be plain file mode
+        pos += pl
+        q = {'mode': 'cli', 'argv': pos, 'argv_pos': pos, 'ref_a': ra if explicit_a else 'HEAD', 'ref_b': rb, 'cwd': cwd, 'paths': pl or None}
+    return q
+
+
+def gen_filtercfg_scenario(r, i):
+    """Git CONFIGURATION shapes of the clean filter: `*.ipynb filter=nbv` (or a narrower / wider pattern) in .gitattributes and
+    `filter.nbv.clean` defined by a random SEQUENCE of 1-4 configuration steps, each at one of the places git reads
+    (repository config, global config, system config, a file pulled in by [include] from the repository or the global
+    config at that point, GIT_CONFIG_COUNT environment = `git -c`), written with `git config --add`, `--replace-all`, as a
+    further section of the file or in another letter case, each naming one of four distinguishable drivers (sometimes the
+    same one again, sometimes the empty command).  git uses the LAST value it reads.  The history is a random one as in
+    gen_scenario with 1-3 further unstaged notebook edits, so that the working-tree side exists; queried mostly
+    commit/worktree and index/worktree (where the filter matters), also commit/index and commit/commit (controls)."""
+    b = gen_scenario(r, i)
+    ops = [list(o) for o in b['ops']]
+    nxt = [3000 + 10 * i]
+    def fresh():
+        nxt[0] += 1; return nxt[0]
+    head, index, disk = simulate(ops)
+    nbs = sorted(p for p in disk if p.endswith(NB))
+    if not nbs:
+        d = r.choice(['', 'sub', 'sub/deep', 'sp ace'])
+        nbs = [(d + '/' if d else '') + 'k%d' % r.randrange(3) + NB]
+        ops += [['write', nbs[0], fresh()], ['commit']]
+    for p in r.sample(nbs, min(len(nbs), r.choice([1, 2, 2, 3]))):
+        ops.append(['write', p, fresh()])
+    steps = []
+    for _ in range(r.choice([1, 2, 2, 2, 2, 3, 3, 4])):
+        level = r.choice(CFG_LEVELS)
+        how = r.choice(['add', 'add', 'add', 'set', 'raw', 'rawcase'])
+        drv = None if r.random() < 0.08 else r.randrange(4)
+        if steps and r.random() < 0.1: drv = steps[-1][2]            # the same command configured again
+        steps.append([level, how, drv])
+    q = cfg_query(r, ops, ['cw'] * 6 + ['iw'] * 3 + ['ci', 'cc'])
+    filt = r.choice(['*.ipynb', '*.ipynb', '*.ipynb', 'sub/*.ipynb', '*'])
+    return {'src': 'rand-cfg', 'root_rel': ROOT_REL, 'ops': ops, 'query': q, 'decoys': [], 'filter': filt, 'filter_config': steps}
+
+
+def filtercfg_fixed():
+    """the named shapes, spelled out (no randomness); each from the root and from a subdirectory"""
+    out = []
+    api = lambda a, b, cwd, paths=None: {'mode': 'api', 'ref_a': a, 'ref_b': b, 'cwd': cwd, 'paths': paths}
+    cli = lambda argv, a, b, paths, cwd='': {'mode': 'cli', 'argv': argv, 'argv_pos': argv, 'ref_a': a, 'ref_b': b, 'paths': paths, 'cwd': cwd}
+    ops = [['write', 'top.ipynb', 1], ['write', 'sub/one.ipynb', 2], ['write', 'sub/deep/two.ipynb', 3], ['write', 'sub/notes.txt', 4], ['commit'],
+           ['write', 'top.ipynb', 5], ['write', 'sub/one.ipynb', 6], ['write', 'sub/deep/two.ipynb', 7], ['write', 'sub/notes.txt', 8]]
+    L, G, S, IL, IG, E = 'local', 'global', 'system', 'include-local', 'include-global', 'env'
+    shapes = [
+        ('single-local', [[L, 'add', 1]]),
+        ('single-global', [[G, 'add', 1]]),
+        ('local-added-twice', [[L, 'add', 0], [L, 'add', 1]]),
+        ('local-added-thrice', [[L, 'add', 2], [L, 'add', 0], [L, 'add', 1]]),
+        ('local-two-sections', [[L, 'raw', 0], [L, 'raw', 1]]),
+        ('local-second-in-other-case', [[L, 'add', 0], [L, 'rawcase', 1]]),
+        ('local-same-twice', [[L, 'add', 1], [L, 'add', 1]]),
+        ('local-replaced', [[L, 'add', 0], [L, 'set', 1]]),
+        ('global-overridden-by-local', [[G, 'add', 0], [L, 'add', 1]]),
+        ('local-written-before-global', [[L, 'add', 1], [G, 'add', 0]]),
+        ('global-twice', [[G, 'add', 0], [G, 'add', 1]]),
+        ('system-global-local', [[S, 'add', 2], [G, 'add', 0], [L, 'add', 1]]),
+        ('system-overridden-by-local', [[S, 'add', 0], [L, 'add', 1]]),
+        ('local-then-included-file', [[L, 'add', 0], [IL, 'raw', 1]]),
+        ('included-file-then-local', [[IL, 'raw', 0], [L, 'raw', 1]]),
+        ('global-includes-file-overridden-by-local', [[IG, 'raw', 0], [L, 'add', 1]]),
+        ('global-then-its-included-file', [[G, 'add', 0], [IG, 'raw', 1]]),
+        ('environment-over-local', [[L, 'add', 0], [E, 'add', 1]]),
+        ('last-value-empty', [[L, 'add', 0], [L, 'add', None]]),
+        ('first-value-empty', [[L, 'add', None], [L, 'add', 1]]),
+    ]
+    for name, steps in shapes:
+        for cwd in ('', 'sub'):
+            out.append({'src': 'fixed-cfg:%s%s' % (name, '-subdir' if cwd else ''), 'root_rel': ROOT_REL, 'ops': ops, 'query': api('HEAD', 'WORKTREE', cwd),
+                        'decoys': [], 'filter': '*.ipynb', 'filter_config': steps})
+    two = [[L, 'add', 0], [L, 'add', 1]]
+    def sc(name, q, steps=two, ops=ops, filt='*.ipynb'):
+        out.append({'src': 'fixed-cfg:' + name, 'root_rel': ROOT_REL, 'ops': ops, 'query': q, 'decoys': [], 'filter': filt, 'filter_config': steps})
+    sc('twice-index-worktree', api('INDEX', 'WORKTREE', 'sub'))
+    sc('twice-cli', cli([], 'HEAD', 'WORKTREE', None))
+    sc('twice-cli-subdir-path', cli(['HEAD', 'one.ipynb'], 'HEAD', 'WORKTREE', ['one.ipynb'], cwd='sub'))
+    sc('twice-commit-index', api('HEAD', 'INDEX', ''), ops=ops + [['add_all']])
+    sc('twice-narrow-pattern', api('HEAD', 'WORKTREE', ''), filt='sub/*.ipynb')
+    sc('global-overridden-cli', cli(['HEAD'], 'HEAD', 'WORKTREE', None, cwd='sub/deep'), steps=[[G, 'add', 0], [L, 'add', 1]])
+    return out
+
+
 def gen_cases(chk, tier):
     cases = fixed_scenarios()
     cdir = os.path.join(core.VERIF, 'corpus', PROP)
@@ -354,6 +470,9 @@ def gen_cases(chk, tier):
     # appended after everything else for the same reason: git says "deleted", something sits at the path on disk
     cases += deleted_fixed()
     for i in range(70 if tier == 'quick' else 700): cases.append(gen_deleted_scenario(chk.rng, i))
+    # likewise appended at the end: filter.<name>.clean defined more than once / at several places git reads configuration
+    cases += filtercfg_fixed()
+    for i in range(50 if tier == 'quick' else 600): cases.append(gen_filtercfg_scenario(chk.rng, i))
     return cases
 
 # ------------------------------------------------------------------ running the implementation
@@ -448,6 +567,10 @@ def judge(sc, res):
     q = sc['query']; f = res['facts']; o = res['obs']; base = res['base']
     if f['name_status_rc'] != 0:
         return []                                   # git itself rejects the question (bad pathspec): nothing to compare
+    if f.get('clean_oracles_disagree'):
+        # `git hash-object --path` and the last value git lists for the driver, run by hand, give different content: the
+        # scenario family (not nbdime) is at fault; no verdict is built on it
+        return [('harness:clean-filter-oracles-disagree', {'path, by hand, by git': f['clean_oracles_disagree'], 'values': f.get('clean_values')})]
     if q['mode'] == 'cli':
         sr = spec_resolution(q['argv_pos'], res['reftable'])
         if sr is None or [sr[0], sr[1], sr[2]] != [q['ref_a'], q['ref_b'], q['paths']]:
@@ -671,6 +794,9 @@ def shrink_case(sc, sig):
             d = dict(c); d['decoys'] = []; yield d
         if c['filter']:
             d = dict(c); d['filter'] = None; yield d
+        if c.get('filter') and len(c.get('filter_config') or []) > 1:
+            for i in range(len(c['filter_config'])):
+                d = dict(c); d['filter_config'] = c['filter_config'][:i] + c['filter_config'][i + 1:]; yield d
         if c['query']['mode'] == 'api' and c['query']['paths']:
             d = dict(c); d['query'] = dict(c['query'], paths=None); yield d
         if c['query']['mode'] == 'api' and isinstance(c['query']['paths'], list) and len(c['query']['paths']) > 1:
@@ -680,7 +806,7 @@ def shrink_case(sc, sig):
 
 # ------------------------------------------------------------------ the check
 def strip(sc):
-    return {k: sc[k] for k in ('root_rel', 'ops', 'query', 'decoys', 'filter') if k in sc}
+    return {k: sc[k] for k in ('root_rel', 'ops', 'query', 'decoys', 'filter', 'filter_config') if k in sc}
 
 
 OWN_CLOSURE = ['Base/Json.v', 'Sys/GitRefs.v', 'Gen/GitRefsFacts.v', 'Sys/GitRefsProofs.v', 'Props/C17.v']
@@ -747,6 +873,12 @@ def run_checked(chk, b, tier):
         key = '%s %s depth%d %s%s' % (q['mode'], kind, len(comps(q['cwd'])),
                                       ('abspaths' if any(is_abs_filter(p) for p in ([q['paths']] if isinstance(q['paths'], str) else q['paths'])) else 'paths') if q['paths'] else 'nopaths', ' filter' if sc.get('filter') else '')
         if str(sc.get('src', '')).split(':')[0] in ('rand-del', 'fixed-del'): key += ' deleted-with-something-on-disk'
+        if sc.get('filter') and sc.get('filter_config'):
+            key += ' clean-filter-configuration'
+            vals = [v for _, v in res.get('facts', {}).get('clean_values', [])]
+            k2 = '(clean filter driver: %s)' % ('not configured' if not vals else 'one value' if len(vals) == 1 else
+                                                '%s values, first %s last' % ('two' if len(vals) == 2 else 'three or more', '=' if vals[0] == vals[-1] else '!='))
+            hist[k2] = hist.get(k2, 0) + 1
         if 'facts' in res and q['ref_b'] == 'WORKTREE':
             root_ = res['root']; onp = {p for p, _ in res['facts']['snapshot']}
             if any(e['status'].startswith('D') and e['b'].endswith(NB) and (root_ + '/' + e['b']) in onp for e in res['facts']['name_status']):
@@ -802,7 +934,15 @@ def run_checked(chk, b, tier):
                 'removal staged + re-created untracked (same or new content), or replaced by a directory of the same name, or plainly deleted (control), '
                 'queried commit/worktree (70%; HEAD or an older ref), index/worktree, commit/index, commit/commit, from the root / the victim\'s directory / '
                 'an ancestor / elsewhere, with or without path filters, API and command line, sometimes with a clean filter or a decoy; the judge takes the '
-                'null file for the remote side of every entry git reports as D; non-trivial = git reports at least one '
+                'null file for the remote side of every entry git reports as D; then the clean-filter-configuration family: 46 fixed scenarios (20 named '
+                'shapes from the root and a subdirectory + 6 other queries), then random histories with 1-3 further unstaged notebook edits in a repository whose '
+                '.gitattributes sets filter=nbv on *.ipynb / sub/*.ipynb / * and whose filter.nbv.clean is defined by a random sequence of 1-4 steps: place '
+                '(repository config, global config, system config, a file pulled in by [include] from the repository or the global config, GIT_CONFIG_COUNT '
+                'environment) x manner (`git config --add`, `--replace-all`, a further section, another letter case) x driver (four distinguishable commands, '
+                'the same again, the empty command); queried commit/worktree (55%), index/worktree, commit/index, commit/commit, any directory, with or without '
+                'path filters, API and command line; for them the expected working-tree side is the blob `git hash-object --path` makes of the file (what git '
+                'itself cleans with the value in force, the last one it reads), cross-checked against the last listed value run by hand ("clean filter '
+                'driver: ..." in the histogram counts the values git lists); non-trivial = git reports at least one '
                 'changed notebook for the query, distinct by canonical JSON of the scenario',
         'input_distribution': hist, 'traces_validated_against_impl': t1, 'model_impl_mismatches': mism,
         'model_terms_evaluated': len(terms), 'exhaustive': False,
